@@ -88,7 +88,7 @@ def main():
            "`tools/seed_eval.py`: apply to /repo, run the property's registered quick check, undo.  Column 'caught by' names the\n"
            "slice of the first replay: 'direct' = the property evaluated on the implementation alone, 'model≠impl' = the\n"
            "correspondence with the proved model.  Changes that were missed when first evaluated led to the strengthening noted;\n"
-           "no check was loosened to catch or to miss a change (the audit-driven relaxations of section 13 were made independently and the 94 changes of rounds 1-3 were re-evaluated on /repo afterwards; the 16 changes of round 4 - C04, C05, C09, C10, C12, C14, C17, C19, two each - were evaluated with those final checks: 15 caught at once, C05-m8 after the generator extension noted in its row).  `seeded/<name>/` holds patch.diff, demo.py, meta.json; `seeded/results.json` the raw results.\n\n"
+           "no check was loosened to catch or to miss a change (the audit-driven relaxations of section 13 were made independently and the 94 changes of rounds 1-3 were re-evaluated on /repo afterwards; the 16 changes of round 4 - C04, C05, C09, C10, C12, C14, C17, C19, two each - were evaluated with those final checks: 15 caught at once, C05-m8 after the generator extension noted in its row; a last batch of four single changes - C01-m7, C06-m7, C18-m7, C20-m7 - was caught at once).  `seeded/<name>/` holds patch.diff, demo.py, meta.json; `seeded/results.json` the raw results.\n\n"
            f"Currently {ncaught} of {len(res)} evaluated changes are caught by the quick check of their own property.\n\n"
            "| change | prop | what it does | needs | caught by |\n|---|---|---|---|---|\n" + "\n".join(rows) + "\n\n"
            "---------------------------------------------------------------------------------------------------\n\n")
